@@ -12,6 +12,9 @@ for d in sorted(glob.glob(os.path.join(V, "seeded", "C*_*m[12]"))):
     if mn.startswith("r2"):          # second round of seeded changes
         mn = mn[2:]
         readme_src = "/tmp/mut2_%s/out/README.md" % prop
+    elif mn.startswith("r6"):        # sixth round
+        mn = mn[2:]
+        readme_src = "/tmp/r6/out/%s/README.md" % prop
     elif mn.startswith("r5"):        # fifth mini-round (C20, the simulation's planner code): C20_r5<agent letter>m<k>
         readme_src = "/tmp/r5/out_%s%s/README.md" % (prop, mn[2])
         mn = mn[3:]
